@@ -27,6 +27,9 @@ def pipeline_case(draw, tier):
     else:
         case = draw(gen.set_join_case(tier))
         case["tok"]["return_set"] = True
+        if case["measure"] == "OVERLAP":
+            # the filters take an overlap *size*: integral, like the edit-distance threshold
+            case["threshold"] = max(1, int(case["threshold"]))
         if case["measure"] == "OVERLAP_COEFFICIENT":
             case["stage1"] = "overlap"
         else:
